@@ -137,13 +137,60 @@ def lib14Step (m : TMap) (l : String) : Option (TMap × String) :=
     | _, _ => none
   | _ => none
 
+/-- The object flavour of the map resource (`MapKeyObjToObj`: type-erased keys `Box<dyn KeyObj>` to type-erased values
+`Box<dyn MapValueObj>`): its own resource type, hence its own slot, independent of the typed maps; keys and values are
+(type tag, value) pairs compared by `eq_any` (`Identity.eqAny`); zero-sized types (tags 2, 3) carry value 0. -/
+structure OState where
+  omap : List (Identity.Key × Identity.Key) := []
+  ostamps : Array (Option Identity.Key) := #[]
+
+def okey (t n : Nat) : Option Identity.Key :=
+  if t > 3 then none else some { ty := t, val := if t ≥ 2 then 0 else n }
+
+def oget (o : OState) (k : Identity.Key) : Option Identity.Key :=
+  (o.omap.find? (fun kv => Identity.eqAny kv.1 k)).map (·.2)
+
+def oshow (v : Option Identity.Key) : String :=
+  match v with | some x => s!"some:{x.ty}:{x.val}" | none => "none"
+
+def lib14OStep (o : OState) (l : String) : Option (OState × String) :=
+  match l.splitOn " " with
+  | ["oins", kt, kn, vt, vn] => do
+    let k ← okey (← kt.toNat?) (← kn.toNat?); let v ← okey (← vt.toNat?) (← vn.toNat?)
+    let old := oget o k
+    pure ({ o with omap := (o.omap.filter (fun kv => !Identity.eqAny kv.1 k)) ++ [(k, v)] }, oshow old)
+  | ["orem", kt, kn] => do
+    let k ← okey (← kt.toNat?) (← kn.toNat?)
+    pure ({ o with omap := o.omap.filter (fun kv => !Identity.eqAny kv.1 k) }, oshow (oget o k))
+  | ["oread", kt, kn] => do
+    let k ← okey (← kt.toNat?) (← kn.toNat?)
+    pure (o, oshow (oget o k))
+  | ["ostamp", kt, kn] => do
+    let k ← okey (← kt.toNat?) (← kn.toNat?)
+    pure ({ o with ostamps := o.ostamps.push (oget o k) }, s!"s{o.ostamps.size} {oshow (oget o k)}")
+  | ["ocheck", kt, kn, i] => do
+    let k ← okey (← kt.toNat?) (← kn.toNat?); let i ← i.toNat?
+    let st ← o.ostamps[i]?
+    let cur := oget o k
+    let same := match cur, st with
+      | none, none => true
+      | some a, some b => Identity.eqAny a b
+      | _, _ => false
+    pure (o, showCons same)
+  | _ => none
+
 def runLib14 (lines : List String) : List String :=
-  let rec go (m : MapRes.TMap) : List String → List String → List String
+  let rec go (m : MapRes.TMap) (o : OState) : List String → List String → List String
     | [], acc => acc.reverse
-    | l :: ls, acc => match lib14Step m l with
-      | some (m', r) => go m' ls (s!"{l} -> {r}" :: acc)
+    | l :: ls, acc =>
+      if l.startsWith "o" then
+        match lib14OStep o l with
+        | some (o', r) => go m o' ls (s!"{l} -> {r}" :: acc)
+        | none => (s!"bad-op {l}" :: acc).reverse
+      else match lib14Step m l with
+      | some (m', r) => go m' o ls (s!"{l} -> {r}" :: acc)
       | none => (s!"bad-op {l}" :: acc).reverse
-  go [] lines []
+  go [] {} lines []
 
 /-! ### lib15 -/
 def enc15 (ty n : Nat) : Nat := Identity.encode { ty := ty, val := n }
